@@ -1,6 +1,30 @@
-"""C06 — inv / solve on every dispatch path (ALG engine, rule-level contracts)."""
+"""C06 — inv / solve on every dispatch path (ALG engine, rule-level contracts + kernel methods of the returned kinds)."""
 import numpy as np
 from props._common import run_rules
+from vcgen import methods
+
+AUTO_SETTINGS = dict(tol=1e-9, max_iters=77, pbar=False)
+
+
+def auto_extra(choice, sig):
+    return [{}]
+
+
+def post_auto(sig, choice, cfg, args, r, log):
+    """Auto rule: the algorithm object handed to the recursive inv call carries every setting of the Auto object
+    ('the requested tolerance for CG and GMRES')."""
+    from cola.linalg.algorithm_base import Auto
+    out = []
+    if len(args) >= 2 and isinstance(args[1], Auto):
+        want = dict(args[1].__dict__)
+        for name, cargs in log:
+            if name == "inv" and len(cargs) >= 2:
+                alg = cargs[1]
+                fields = getattr(alg, "__dataclass_fields__", None)
+                if fields:     # CG / GMRES: iterative algorithm objects carry the settings
+                    got = {k: getattr(alg, k) for k in want}
+                    out.append(("the iterative algorithm chosen by Auto carries Auto's settings (tol, max_iters, ...)", got == want))
+    return out
 
 
 def run(chk):
@@ -8,5 +32,52 @@ def run(chk):
     chk.assume("IterativeOperatorWInfo(A, alg) is given its idealised meaning M(A)^-1 (tol -> 0); the residual bound of CG/GMRES at a "
                "finite tolerance is the exit contract of C12/C13, convergence within max_iters (liveness) is not claimed")
     chk.assume("backward stability of LAPACK lu/cholesky/solve_triangular is a floating-point statement: out of reach, exact arithmetic only")
-    spec = dict(dtypes=[np.float64, np.complex128], anns=[(), ("PSD",), ("Unitary",)])
-    return run_rules(chk, "C06", ["inv"], default_spec=spec)
+    import vcgen.rules as R
+    from cola.linalg.algorithm_base import Auto
+    orig_make = R.make_alg
+
+    def make_alg(cls):
+        if cls is Auto:
+            return Auto(**AUTO_SETTINGS)
+        return orig_make(cls)
+    R.make_alg = make_alg
+    try:
+        spec = dict(dtypes=[np.float64, np.complex128], anns=[(), ("PSD",), ("Unitary",)], post=post_auto)
+        rp = run_rules(chk, "C06", ["inv"], default_spec=spec)
+    finally:
+        R.make_alg = orig_make
+    # kernels of the kinds inv returns on the direct paths: 'transpose and left-product are those of the inverse as well'
+    methods.run_methods(chk, "C06", kinds=["TriangularInv", "IterativeOperatorWInfo"], which=("_matmat", "_rmatmat", "to_dense"))
+    solve_case(chk)
+
+    def replayer(ob):
+        w = ob.witness or {}
+        if w.get("engine") == "METHOD":
+            from vcgen import cex_methods
+            return cex_methods.replay(w)
+        return rp(ob)
+    return replayer
+
+
+def solve_case(chk):
+    """solve(A, b, alg) = inv(A, alg) @ b  satisfies  M(A) x = b  (vector and multi-column right-hand sides)"""
+    import z3
+    from vcgen import alg
+    from vcgen.absop import AbstractOp, M
+    from vcgen.direct import Case, run_cases
+    from vcgen.proxy import AMat, CTX
+    from vcgen.rules import sym_dim, any_alg
+    import cola
+    cases = []
+    for dt in (np.float64, np.complex128):
+        for nd in (1, 2):
+            def build(dt=dt, nd=nd):
+                n = sym_dim("n")
+                A = AbstractOp("A", n, n, dt)
+                CTX.assume(alg.invok(M(A)))
+                b = AMat.const("b", (n,) if nd == 1 else (n, sym_dim("k")), dt)
+                return (A, b, any_alg())
+            cases.append(Case(f"solve/dtype={np.dtype(dt).name};rhs={nd}d", "cola.linalg.inverse.inv.solve", build,
+                              lambda A, b, a: cola.linalg.solve(A, b, a),
+                              lambda args, x: [("M(A) x = b", alg.mmul(M(args[0]), x.term) == args[1].term)]))
+    run_cases(chk, "C06", cases)
